@@ -279,3 +279,215 @@ Proof. vm_compute. reflexivity. Qed.
 Example windows_u_witness : exists wins,
   windows 1 12 0 (lens_u [101; 769; 128105; 8205; 128187; 13; 10; 97]) = Ok wins /\ length wins = 3%nat.
 Proof. eexists. split; [vm_compute; reflexivity | reflexivity]. Qed.
+
+(** ** [usize] inside the model (C16_Machine.v): a second, literal model of the same code in which every
+    [+], [-], [*] on a [usize] is an explicit 64-bit operation, in the two cargo profiles: [Checked]
+    (overflow-checks on: a result that does not fit is the panic [Fault site]) and [Wrapping] (off: the
+    value modulo 2^64).  [mwindows p fixed isb kind max ctx lens]: [fixed = true] is the code after the
+    D10 repair ([saturating_mul]), [false] the pinned code ([2 * context]); [isb] = the string's
+    [is_char_boundary] (slices off a boundary panic).  [W] = 2^64, [ISIZE_MAX] = 2^63 - 1 = the largest
+    byte length a Rust string can have.  [ctx] is not bounded in the statements: they hold for every [N],
+    in particular for every [usize]. *)
+From TU Require Import C16_Machine C16_MachineProofs C16_MachineTop.
+
+Example W_value : W = 2 ^ 64 /\ ISIZE_MAX = 2 ^ 63 - 1.
+Proof. vm_compute. split; reflexivity. Qed.
+
+(** what the three operations are, on [usize] operands *)
+Theorem machine_ops_spec : forall s a b, a < W -> b < W ->
+  madd Checked s a b = (if a + b <? W then Ok (a + b) else Fault s)
+  /\ madd Wrapping s a b = Ok ((a + b) mod W)
+  /\ msub Checked s a b = (if b <=? a then Ok (a - b) else Fault s)
+  /\ msub Wrapping s a b = Ok ((a + W - b) mod W)
+  /\ mmul Checked s a b = (if a * b <? W then Ok (a * b) else Fault s)
+  /\ mmul Wrapping s a b = Ok ((a * b) mod W).
+Proof. exact machine_ops_spec_l. Qed.
+Print Assumptions machine_ops_spec.
+
+(** [bnd] (is_char_boundary): exactly the byte lengths of the prefixes of the code points; every
+    cluster boundary is one *)
+Theorem char_boundary_spec : forall cpl b, bnd cpl b = true <-> exists k, b = sumN (firstn k cpl).
+Proof. exact bnd_spec. Qed.
+Print Assumptions char_boundary_spec.
+
+Theorem cluster_boundary_is_char_boundary : forall cl k, isb_of cl (pre (lens_of cl) k) = true.
+Proof. exact isb_of_pre. Qed.
+Print Assumptions cluster_boundary_is_char_boundary.
+
+(** THE MACHINE MODEL IS THE UNBOUNDED MODEL: for every text of at most isize::MAX bytes (positive
+    cluster byte lengths), every [max] below 2^64, every [ctx], every kind and both profiles.  Hence
+    every theorem above about [windows] is a theorem about [mwindows]. *)
+Theorem machine_eq_model : forall p lens isb kind max ctx,
+  Pos lens -> sumN lens <= ISIZE_MAX -> (forall k, isb (pre lens k) = true) -> max < W ->
+  mwindows p true isb kind max ctx lens = windows kind max ctx lens.
+Proof. exact machine_eq_model_l. Qed.
+Print Assumptions machine_eq_model.
+
+(** no arithmetic fault, no panic, no exhausted fuel: a window list or one of the two errors *)
+Theorem machine_no_fault : forall p lens isb kind max ctx,
+  Pos lens -> sumN lens <= ISIZE_MAX -> (forall k, isb (pre lens k) = true) -> max < W ->
+  (exists wins, mwindows p true isb kind max ctx lens = Ok wins)
+  \/ (exists c info, mwindows p true isb kind max ctx lens = Err c info).
+Proof. exact machine_no_fault_l. Qed.
+Print Assumptions machine_no_fault.
+
+(** debug and release builds compute the same *)
+Theorem machine_profiles_agree : forall lens isb kind max ctx,
+  Pos lens -> sumN lens <= ISIZE_MAX -> (forall k, isb (pre lens k) = true) -> max < W ->
+  mwindows Checked true isb kind max ctx lens = mwindows Wrapping true isb kind max ctx lens.
+Proof. exact machine_profiles_agree_l. Qed.
+Print Assumptions machine_profiles_agree.
+
+(** the CharString arithmetic for EVERY index argument (also out of range: the same panic), and
+    possible_character_substrings for every [max_chars] *)
+Theorem machine_offsets_eq : forall p lens isb,
+  Pos lens -> sumN lens <= ISIZE_MAX -> (forall k, isb (pre lens k) = true) ->
+  mcs_new p lens = Ok (cs_new lens)
+  /\ (forall n, mbse p (cs_new lens) n = bse (cs_new lens) n)
+  /\ (forall n, mcbl p (cs_new lens) n = cbl (cs_new lens) n)
+  /\ (forall a b, mcr2br p (cs_new lens) a b = cr2br (cs_new lens) a b)
+  /\ (forall n, mget p isb (cs_new lens) n = cs_get (cs_new lens) n)
+  /\ (forall a b, msubstr p isb (cs_new lens) a b = sub (cs_new lens) a b)
+  /\ (forall maxc, mpcs p lens maxc = pcs lens maxc).
+Proof. exact machine_offsets_eq_l. Qed.
+Print Assumptions machine_offsets_eq.
+
+(** with the segmenter inside the model: [mwindows_u p g kind max ctx s] = the machine model on the
+    clusters of [seg_of g s] with the character boundaries of [s]; the only premises left are the
+    byte length of the text and [max < 2^64] *)
+Theorem machine_eq_model_u : forall p g kind max ctx s, lenN (utf8s s) <= ISIZE_MAX -> max < W ->
+  mwindows_u p g kind max ctx s = windows kind max ctx (lens_g g s).
+Proof. exact machine_eq_model_g. Qed.
+Print Assumptions machine_eq_model_u.
+
+Theorem machine_total_u : forall p g kind max ctx s, lenN (utf8s s) <= ISIZE_MAX -> max < W ->
+  (exists wins, mwindows_u p g kind max ctx s = Ok wins)
+  \/ (exists c info, mwindows_u p g kind max ctx s = Err c info).
+Proof. exact machine_total_g. Qed.
+Print Assumptions machine_total_u.
+
+(** the transferred clauses, spelled out for the machine-level function *)
+Theorem machine_tile_u : forall p g kind max ctx s wins, lenN (utf8s s) <= ISIZE_MAX -> max < W ->
+  s <> [] -> mwindows_u p g kind max ctx s = Ok wins ->
+  Tile w_ws w_we 0 (lenN (seg_of g s)) wins
+  /\ Tile w_bws w_bwe 0 (lenN (utf8s s)) wins
+  /\ concat (map (fun w => bslice (utf8s s) (w_bws w) (w_bwe w)) wins) = utf8s s
+  /\ concat (map (fun w => concat (bslice (seg_of g s) (w_ws w) (w_we w))) wins) = s.
+Proof. exact (fun p g kind max ctx s wins HB Hm => machine_tile_g p g kind max ctx s HB Hm wins). Qed.
+Print Assumptions machine_tile_u.
+
+Theorem machine_ctx_u : forall p g kind max ctx s wins, lenN (utf8s s) <= ISIZE_MAX -> max < W ->
+  s <> [] -> mwindows_u p g kind max ctx s = Ok wins ->
+  Forall (fun w => w_cs w <= w_ws w /\ w_we w <= w_ce w /\ w_ce w <= lenN (seg_of g s)
+                /\ w_bcs w <= w_bws w /\ w_bwe w <= w_bce w /\ w_bce w <= lenN (utf8s s)) wins
+  /\ (kclass kind = 0 -> Forall (fun w => w_ce w - w_cs w <= max) wins)
+  /\ (kclass kind = 1 -> Forall (fun w => w_bce w - w_bcs w <= max) wins).
+Proof. exact (fun p g kind max ctx s wins HB Hm => machine_ctx_g p g kind max ctx s HB Hm wins). Qed.
+Print Assumptions machine_ctx_u.
+
+(** "an impossible configuration yields an error, never a panic", at machine level: for EVERY usize pair *)
+Theorem machine_bad_config_u : forall p g kind max ctx s, lenN (utf8s s) <= ISIZE_MAX -> max < W ->
+  s <> [] -> kclass kind <> 2 -> max <= 2 * ctx -> mwindows_u p g kind max ctx s = Err 1 [].
+Proof. exact machine_bad_config_g. Qed.
+Print Assumptions machine_bad_config_u.
+
+(** the val-level runs used by the correspondence: on every well-formed input within the bounds the
+    machine run is the model run in both profiles, passes the executable statement, and the clause
+    [machine_agree] of [agree] holds of the model's output *)
+Theorem machine_run_eq : forall p v, wf_C16 v = true -> bytes_of v <= ISIZE_MAX -> v_big (v_nth 1 v) < W ->
+  run_M16 p v = run_C16 v /\ check_C16 v (run_M16 p v) = true /\ machine_agree v (run_C16 v) = true.
+Proof.
+  exact (fun p v H1 H2 H3 => conj (run_M16_ok p v H1 H2 H3)
+           (conj (machine_check_run_l p v H1 H2 H3) (machine_agree_run_l v H1 H2 H3))).
+Qed.
+Print Assumptions machine_run_eq.
+
+Theorem machine_run_u : forall p kind max ctx g s probes, lenN (utf8s s) <= ISIZE_MAX -> max < W ->
+  run_M16 p (input_of kind max ctx g s probes) = run_C16 (input_of kind max ctx g s probes)
+  /\ machine_agree (input_of kind max ctx g s probes) (run_C16 (input_of kind max ctx g s probes)) = true.
+Proof. exact machine_run_u_l. Qed.
+Print Assumptions machine_run_u.
+
+(** THE CODE BEFORE THE D10 REPAIR ([max <= 2 * context]).  With overflow checks every call with
+    [context >= 2^63] faults at the configuration check, whatever the text and [max] ... *)
+Theorem pinned_config_faults : forall isb lens max ctx, W <= 2 * ctx ->
+  mchar_windows Checked false isb lens max ctx = Fault 18
+  /\ mbyte_windows Checked false isb lens max ctx = Fault 26.
+Proof. exact pinned_config_faults_l. Qed.
+Print Assumptions pinned_config_faults.
+
+(** ... so "never a fault" is false of it: "abcdefgh", max 5, context 2^63 (the model: the error) *)
+Theorem pinned_no_fault_refuted :
+  exists kind max ctx cl,
+    max < W /\ ctx < W /\ sumN (lens_of cl) <= ISIZE_MAX /\ Pos (lens_of cl)
+    /\ is_fault (mwindows Checked false (isb_of cl) kind max ctx (lens_of cl)) = true
+    /\ windows kind max ctx (lens_of cl) = Err 1 [].
+Proof. exact pinned_no_fault_refuted_l. Qed.
+Print Assumptions pinned_no_fault_refuted.
+
+(** without overflow checks the product wraps to 0, the impossible configuration is accepted, and the
+    result violates the property: a window whose context ends before the window ends (characters) ... *)
+Theorem pinned_wrapping_refuted :
+  exists kind max ctx cl wins w,
+    max < W /\ ctx < W /\ sumN (lens_of cl) <= ISIZE_MAX /\ Pos (lens_of cl)
+    /\ windows kind max ctx (lens_of cl) = Err 1 []
+    /\ mwindows Wrapping false (isb_of cl) kind max ctx (lens_of cl) = Ok wins /\ In w wins
+    /\ w_ce w < w_we w.
+Proof. exact pinned_wrapping_refuted_l. Qed.
+Print Assumptions pinned_wrapping_refuted.
+
+(** ... and a context of more than [max] bytes (byte windows) *)
+Theorem pinned_wrapping_bound_refuted :
+  exists kind max ctx cl wins w,
+    max < W /\ ctx < W /\ sumN (lens_of cl) <= ISIZE_MAX /\ Pos (lens_of cl)
+    /\ kclass kind = 1
+    /\ windows kind max ctx (lens_of cl) = Err 1 []
+    /\ mwindows Wrapping false (isb_of cl) kind max ctx (lens_of cl) = Ok wins /\ In w wins
+    /\ max < w_bce w - w_bcs w.
+Proof. exact pinned_wrapping_bound_refuted_l. Qed.
+Print Assumptions pinned_wrapping_bound_refuted.
+
+(** the repair changes nothing else: for [context < 2^63] the pinned and the repaired code agree *)
+Theorem pinned_agrees_elsewhere : forall p isb kind lens max ctx, 2 * ctx < W ->
+  mwindows p false isb kind max ctx lens = mwindows p true isb kind max ctx lens.
+Proof. exact pinned_agrees_elsewhere_l. Qed.
+Print Assumptions pinned_agrees_elsewhere.
+
+(** Non-vacuity.  "aä中😀ab" + "e U+0301" (1,2,3,4,1,1,3 bytes): the premises hold; byte windows max 7
+    ctx 1 in the checked profile: three windows; max = 2^64-1 with ctx = 2^63-1 is a VALID configuration
+    (2*ctx = 2^64-2 < max) and gives one window in both profiles; max = 2^64-2 is the error; a slice
+    that is not on a character boundary panics. *)
+Definition mix7 : list cluster := [[97];[228];[20013];[128512];[97];[98];[101;769]].
+Example machine_premises : Pos (lens_of mix7) /\ sumN (lens_of mix7) <= ISIZE_MAX
+  /\ (forall k, isb_of mix7 (pre (lens_of mix7) k) = true) /\ 18446744073709551615 < W.
+Proof.
+  split; [repeat constructor|]. split; [vm_compute; discriminate|].
+  split; [intros k; apply isb_of_pre|reflexivity].
+Qed.
+Example machine_witness : exists wins,
+  mwindows Checked true (isb_of mix7) 1 7 1 (lens_of mix7) = Ok wins /\ length wins = 3%nat.
+Proof. eexists. split; [vm_compute; reflexivity | reflexivity]. Qed.
+Example machine_huge_witness : exists w,
+  mwindows Checked true (isb_of mix7) 1 18446744073709551615 9223372036854775807 (lens_of mix7) = Ok [w]
+  /\ mwindows Wrapping true (isb_of mix7) 0 18446744073709551615 9223372036854775807 (lens_of mix7) = Ok [w]
+  /\ mwindows Checked true (isb_of mix7) 1 18446744073709551614 9223372036854775807 (lens_of mix7) = Err 1 [].
+Proof. eexists. split; [vm_compute; reflexivity|]. split; vm_compute; reflexivity. Qed.
+Example machine_u_premises : lenN (utf8s [101; 769; 128105; 8205; 128187; 13; 10; 97]) <= ISIZE_MAX.
+Proof. vm_compute. discriminate. Qed.
+Example machine_u_witness : exists wins,
+  mwindows_u Wrapping true 1 12 0 [101; 769; 128105; 8205; 128187; 13; 10; 97] = Ok wins /\ length wins = 3%nat.
+Proof. eexists. split; [vm_compute; reflexivity | reflexivity]. Qed.
+Example off_boundary_slice_panics :
+  mslice (isb_of mix7) (cs_new (lens_of mix7)) 1 2 = Panic 6
+  /\ mslice (isb_of mix7) (cs_new (lens_of mix7)) 1 3 = Ok (1, 2).
+Proof. split; vm_compute; reflexivity. Qed.
+Example pinned_faults_premise : W <= 2 * two63.
+Proof. vm_compute. discriminate. Qed.
+Example pinned_agrees_premise : 2 * 9223372036854775807 < W.
+Proof. reflexivity. Qed.
+Example machine_run_premises :
+  let v := (L [I 1; L [I 4294967295; I 4294967295]; L [I 2147483647; I 4294967295];
+               L [L [I 97]; L [I 228]; L [I 20013]]; I 0; L [L [I 1; I 3]]])%Z in
+  wf_C16 v = true /\ bytes_of v <= ISIZE_MAX /\ v_big (v_nth 1 v) < W
+  /\ run_M16 Checked v = run_C16 v.
+Proof. cbv zeta. split; [reflexivity|]. split; [vm_compute; discriminate|]. split; vm_compute; reflexivity. Qed.
